@@ -44,10 +44,35 @@ def classify_path(arg, store):
     return "other"
 
 
+UNFINISHED = re.compile(r"^(?:\[pid\s+(\d+)\]\s+|(\d+)\s+)?(\w+)\((.*?)\s*<unfinished \.\.\.>\s*$")
+RESUMED = re.compile(r"^(?:\[pid\s+(\d+)\]\s+|(\d+)\s+)?<\.\.\. (\w+) resumed>\s*(.*)$")
+
+
+def merge_unfinished(lines):
+    """strace -f splits a call that another thread's call overtakes into `call(args <unfinished ...>` and `<... call resumed>rest) = ret`:
+    put the two halves back together (at the place of the *resumed* half, i.e. where the call returned)"""
+    pending, out = {}, []
+    for line in lines:
+        l = line.strip()
+        u = UNFINISHED.match(l)
+        if u:
+            pending[(u.group(1) or u.group(2), u.group(3))] = l[:l.index("<unfinished")].rstrip()
+            continue
+        r = RESUMED.match(l)
+        if r:
+            key = (r.group(1) or r.group(2), r.group(3))
+            head = pending.pop(key, None)
+            if head is not None:
+                out.append(head + r.group(4))
+                continue
+        out.append(l)
+    return out
+
+
 def parse(text, store):
     """→ list of step dicts {call, obj, ret, flags/bytes}: the program the process ran on the store's files"""
     steps = []
-    for line in text.splitlines():
+    for line in merge_unfinished(text.splitlines()):
         m = LINE.match(line.strip())
         if not m:
             continue
